@@ -38,7 +38,7 @@ func RunCommitSync(seed int64, idx int) *Result {
 			delays[k] = 10 + rng.Intn(50)
 		}
 	}
-	o := &Opts{N: 4, NoRouter: true, LogDelays: delays}
+	o := &Opts{N: 4, NoRouter: true, LogDelays: delays, JudgeSeeds: true}
 	net := NewNet(seed, o)
 	me := 1 + rng.Intn(3)
 	nd := net.Nodes[me]
@@ -70,11 +70,14 @@ func RunCommitSync(seed int64, idx int) *Result {
 	}
 	lastCbCtx := func() context.Context { cbMu.Lock(); defer cbMu.Unlock(); return cbCtx }
 	var parkCommittee int32
+	cg := newGate() // the committee contract parks on it (and on its context) while a round is being set up
+	cg.Open()
 	nd.Mem.OnRequest = func(ctx context.Context, h uint64) error {
 		if atomic.LoadInt32(&parkCommittee) == 1 {
 			net.count("committee requests after cancellation")
 			<-ctx.Done()
 		}
+		cg.waitAt(ctx, h)
 		return ctx.Err()
 	}
 	sendGate := newGate()
@@ -118,6 +121,7 @@ func RunCommitSync(seed int64, idx int) *Result {
 		net.offlineC13()
 		return net.result("commitsync", idx, seed, desc)
 	}
+	net.SetSeed(nd.Id, 1, nil, false)
 	call(nil)
 	if nd.Witness(16) < 16 {
 		net.count("inconclusive: worker iterations not witnessed")
@@ -179,7 +183,7 @@ func RunCommitSync(seed int64, idx int) *Result {
 		h0, _ := nd.HV()
 		kind := rng.Intn(10)
 		switch {
-		case kind < 7: // a consensus commit of the height being decided, syncs arriving while the commit callback runs
+		case kind < 6: // a consensus commit of the height being decided, syncs arriving while the commit callback runs
 			park := rng.Intn(4) > 0
 			if park {
 				g.Close()
@@ -281,7 +285,75 @@ func RunCommitSync(seed int64, idx int) *Result {
 				if e := commitSeen(h0); e != nil && len(e.Proof) > 0 {
 					prevSig = protocol.BlockProofReader(e.Proof).RandomSeedSignature()
 				}
+				// (a sync for exactly h0 that raced with the commit may have started the round instead: not determinable then)
+				raced := false
+				for _, h := range hs {
+					if h == h0 {
+						raced = true
+					}
+				}
+				net.SetSeed(nd.Id, h1, prevSig, raced)
+			} else {
+				net.SetSeed(nd.Id, h1, nil, false)
 			}
+		case kind == 6: // a sync overtakes the round that is being set up after a commit; messages of that round are already queued
+			cg.Close()
+			if !drive(h0, false) {
+				cg.Open()
+				if staleBefore {
+					net.violate("C14", "stale-sync-changed-the-outcome", "after UpdateState calls that were all below the height %d being decided, the scripted traffic of that height no longer makes the node commit", h0)
+				} else {
+					net.count("inconclusive: scripted commit did not happen")
+				}
+				return finish()
+			}
+			staleBefore = false
+			net.count("C14 scripted commits")
+			parked := false
+			for i := 0; i < 50000 && !parked; i++ {
+				parked = atomic.LoadInt32(&cg.parked) > 0
+				time.Sleep(100 * time.Microsecond)
+			}
+			if !parked {
+				cg.Open()
+				net.count("inconclusive: committee request of the next round did not park")
+				return finish()
+			}
+			// the node is at height h0+1 (state already advanced), its term is being constructed. Queue that height's COMMITs.
+			var sigH []byte
+			if e := commitSeen(h0); e != nil && len(e.Proof) > 0 {
+				sigH = protocol.BlockProofReader(e.Proof).RandomSeedSignature()
+			}
+			net.SetSeed(nd.Id, h0+1, sigH, false)
+			{
+				h := h0 + 1
+				blk := &spi.Blk{H: h, Body: fmt.Sprintf("scripted-%d", h)}
+				hdr := &ref.Ref{Type: ref.C, Inst: inst, H: h, V: 0, Hash: spi.HashOf(blk)}
+				for _, id := range others {
+					sg := ref.Sig{Id: id, Sig: net.Keys.SignCM(id, h, hdr.Bytes())}
+					nd.ML.HandleConsensusMessage(nd.ctx, ref.RawBlockRefMsg(ref.EnvC, hdr, sg, net.Keys.Share(id, h, sim.SeedBytesOf(sigH)), nil))
+				}
+			}
+			target := h0 + 1 + uint64(rng.Intn(3))
+			if !call(&spi.Blk{H: target, Body: "synced"}) {
+				cg.Open()
+				return finish()
+			}
+			lastSync = int64(target)
+			net.SetSeed(nd.Id, target+1, nil, false)
+			nd.Barrier()
+			cg.Open()
+			if nd.Witness(64) < 64 {
+				net.count("inconclusive: worker iterations not witnessed")
+				return finish()
+			}
+			h1, v1 := nd.HV()
+			net.count("C14 batches judged")
+			net.count("C17 rounds overtaken by a sync while being set up")
+			if h1 < target+1 {
+				net.violate("C14", "newest-sync-did-not-take-effect", "UpdateState height %d returned nil while the round of height %d was being set up; after 64 witnessed worker iterations the node is at height %d (view %d)", target, h0+1, h1, v1)
+			}
+			prevSig = nil
 		case kind < 8 && !extremeDone: // the extreme height, then a sync that must still take effect
 			extremeDone = true
 			staleBefore = false
@@ -311,6 +383,7 @@ func RunCommitSync(seed int64, idx int) *Result {
 				}
 			}
 			prevSig = nil
+			net.SetSeed(nd.Id, h1, nil, false)
 		case kind == 8 && h0 >= 2 && int64(h0-1) > lastSync: // idle node, sync with the block it already builds on (and maybe older ones)
 			hs := []uint64{h0 - 1}
 			if rng.Intn(2) == 0 {
@@ -367,6 +440,7 @@ func RunCommitSync(seed int64, idx int) *Result {
 				net.violate("C14", "newest-sync-did-not-take-effect", "UpdateState height %d returned nil while the node was deciding height %d; after 64 witnessed worker iterations it is at height %d (view %d)", target, h0, h1, v1)
 			}
 			prevSig = nil
+			net.SetSeed(nd.Id, h1, nil, false)
 		}
 	}
 	// shutdown while the commit callback waits on its context
